@@ -33,11 +33,12 @@ SignOnce(vneg, F) ==        \* vneg: the value is negative (sign transported sep
   IF NonZero(F) = {} THEN \A i \in 1..3 : F[i].neg = 0
   ELSE /\ \A i \in 1..3 : (i # FirstNZ(F)) => F[i].neg = 0
        /\ (F[FirstNZ(F)].neg = 1) <=> vneg
-ReadBack(v, nd, F, unit) ==
+ReadBackTol(v, nd, F, unit, tol) ==      \* tol: what the float decomposition may cost (1e-9 in general)
   LET mag == FieldVal(F)
       neg == \E i \in 1..3 : F[i].neg = 1
       p   == IF neg THEN Neg(mag) ELSE mag
-  IN WithinMod(p, v, unit, HalfUnit(nd))
+  IN WithinMod(p, v, unit, IF nd < 0 THEN tol ELSE Add(DivInt(Dec(5, nd + 1), 3600), tol))
+ReadBack(v, nd, F, unit) == ReadBackTol(v, nd, F, unit, Tol9)
 Canonical(F, unit) ==      \* integral degree/hour and minute fields, at most one full turn
   /\ Le(F[1].a, FromInt(unit)) /\ ~HasFrac(F[1].a) /\ ~HasFrac(F[2].a)
 
